@@ -259,7 +259,8 @@ pub fn run_case(cfg: &RunCfg, case: &Case) -> Verdict {
         let (client_io, server_io) = tokio::io::duplex(1 << 16);
         let conn = svc.call((server_io, Protocol::Http2, None));
         let server = tokio::task::spawn_local(async move {
-            let _ = conn.await;
+            // (a server task spinning at one virtual instant is ended; its streams then never finish)
+            let _ = util::PollBudget::new(conn, util::SPIN_LIMIT).await;
         });
         let (send_req, connection) = match h2::client::Builder::new()
             .initial_window_size(window)
